@@ -412,7 +412,7 @@ static void do_treetbl(args_t *A) {
     if (FN("getnext") && A->cur && !strcmp(A->cur, "1")) t->getnext(t, &cur, false);
     if (FN("getnext") && A->cur && !strcmp(A->cur, "end")) while (t->getnext(t, &cur, false));
     BEGIN();
-    if (FN("set_compare")) RV(t->set_compare(t, rev_cmp));
+    if (FN("set_compare")) RV(t->set_compare(t, A->idx == 0 ? NULL : (A->idx == 1 ? rev_cmp : qtreetbl_byte_cmp)));
     else if (FN("put")) RB(t->put(t, keystr, data, dsz));
     else if (FN("putstr")) RB(t->putstr(t, keystr, A->val_null ? NULL : "str"));
     else if (FN("putstrf")) RB(t->putstrf(t, keystr, "%s-%d", "str", A->idx));
